@@ -17,7 +17,7 @@ pub static DEF: PropDef = PropDef {
     level: "exploration",
     engine: "meta-cas",
     rule: "one run = 2..4 nodes with real ObjectStoreMetadataClients issuing 4..9 lease operations each (acquire over overlapping 1..3-chunk sets, renew on time / late / never, complete, fail, scavenge) separated by drawn virtual pauses of 0..400 s, all on one shared virtual clock; every store request is a seeded scheduling point and the scheduler may let time pass between a request's GET and PUT (past the 300 s TTL); 2/3 of runs add request failures/delays; distinct = distinct (node, request kind, object class, fault, advance) decision sequence; non-trivial = completed AND (interleaved OR fault fired)",
-    quick_runs: 6000,
+    quick_runs: 15000,
     thorough_runs: 150_000,
     run_cap_ms: 20_000,
     scen,
